@@ -20,10 +20,10 @@ thread_local! {
 pub fn note_refused(i: usize) {
     REFUSED.with(|r| r.borrow_mut().push(i));
 }
-fn refused_now() -> Vec<usize> {
+pub fn refused_now() -> Vec<usize> {
     REFUSED.with(|r| r.borrow().clone())
 }
-fn refused_reset() {
+pub fn refused_reset() {
     REFUSED.with(|r| r.borrow_mut().clear());
 }
 
